@@ -75,7 +75,7 @@ def sh(cmd, cwd=None, env=None, timeout=None):
 # ----------------------------------------------------------------------------------------------
 # unit building / verus
 # ----------------------------------------------------------------------------------------------
-def build_unit(unit, canary=False, lenient=False):
+def build_unit(unit, canary=False, lenient=False, stub=None):
     tmpl = os.path.join(ROOT, CONFIG["units"][unit]["template"])
     os.makedirs(GEN, exist_ok=True)
     suffix = "_canary" if canary else ""
@@ -85,6 +85,7 @@ def build_unit(unit, canary=False, lenient=False):
     u = extract.Unit(tmpl)
     u.canary = canary
     u.lenient = lenient
+    u.stub = set(stub or [])
     try:
         u.process_file(tmpl)
     except extract.ExtractError as e:
@@ -98,7 +99,7 @@ def build_unit(unit, canary=False, lenient=False):
         json.dump(meta, f, indent=1)
     # rewrite-rule counts must equal the committed expectation (lost anchor otherwise)
     exp = CONFIG["units"][unit].get("rewrite_counts")
-    if exp is not None and not canary and not lenient:
+    if exp is not None and not canary and not lenient and not stub:
         got = {k: v for k, v in meta["rewrite_counts"].items() if not k.startswith("sub*:") and k != "R7.log"}   # optional call-site renames / dropped log statements are not anchors
         exp = {k: v for k, v in exp.items() if not k.startswith("sub*:") and k != "R7.log"}
         if got != exp:
@@ -265,7 +266,20 @@ def verify_unit(unit):
         # Whatever still verifies is proved (hints only help); whatever fails is UNDECIDED, not a violation.
         rs, meta = build_unit(unit, lenient=True)
         lenient = {"reason": str(e), "dropped": meta.get("dropped_hints", []), "dropped_rewrites": meta.get("dropped_rewrites", [])}
-    out = _verify_built(unit, rs, meta)
+    try:
+        out = _verify_built(unit, rs, meta)
+    except Inconclusive as e:
+        # rustc / unsupported-construct errors inside particular functions: stub those functions (their contracts
+        # become assumptions for this run) and check the rest; the stubbed functions themselves stay undecided
+        bad = getattr(e, "functions", None)
+        if not bad:
+            raise
+        rs, meta = build_unit(unit, lenient=True, stub=bad)
+        out = _verify_built(unit, rs, meta)
+        out["stubbed"] = {"functions": sorted(bad), "reason": str(e)}
+        if lenient is None:
+            lenient = {"reason": str(e), "dropped": [], "dropped_rewrites": []}
+        lenient["dropped"] = list(lenient["dropped"]) + ["%s: body could not be processed by the verifier" % f for f in sorted(bad)]
     if meta.get("unannotated_loops"):
         if lenient is None:
             lenient = {"reason": "loop(s) without invariant: %s" % "; ".join(meta["unannotated_loops"]), "dropped": [], "dropped_rewrites": []}
@@ -280,8 +294,22 @@ def _verify_built(unit, rs, meta):
     rl = [t for t in tool if not t.get("code") and RLIMIT_MSG.search(t.get("message") or "")]
     tool = [t for t in tool if t not in rl]
     if tool:
-        raise Inconclusive("verus/rustc error in unit %s (not a failed obligation): %s" %
-                           (unit, "; ".join((t.get("message") or "")[:300] for t in tool[:3])))
+        ex = Inconclusive("verus/rustc error in unit %s (not a failed obligation): %s" %
+                          (unit, "; ".join((t.get("message") or "")[:300] for t in tool[:3])))
+        fns = set()
+        for t in tool:
+            hit = None
+            for sp in t.get("spans", []):
+                f = fn_of_line(meta, sp["line_start"])
+                if f:
+                    hit = f["id"]
+                    break
+            if hit is None:
+                fns = None       # an error outside any extracted function cannot be isolated
+                break
+            fns.add(hit)
+        ex.functions = fns
+        raise ex
     if rl:
         # resource limit: undecided.  Retry once with a 4x limit before giving up.
         res = run_verus(rs, ["--rlimit", "40"])
@@ -559,6 +587,18 @@ def check_property(pid, tier, seed):
                 if not w:
                     raise Inconclusive("proof hints lost their anchors (%s); %d obligation(s) undecided and no concrete failing input found: %s" %
                                        ("; ".join(r["lenient"]["reason"] for r in lenient_units)[:300], len(undecided), ", ".join(sorted(set(f["label"] for f in undecided))[:4])))
+        stubbed_rel = []
+        for r in results:
+            if r.get("stubbed"):
+                for fid in r["stubbed"]["functions"]:
+                    fprops = next((f["props"] for f in r["meta"]["functions"] if f["id"] == fid), [])
+                    if pid in fprops:
+                        stubbed_rel.append((fid, r["stubbed"]["reason"]))
+        if stubbed_rel:
+            cov["functions_not_verified_in_this_run"] = [{"fn": f, "reason": why[:300]} for (f, why) in stubbed_rel]
+            decided = [f for f in relevant_fail if (f["fn"] or "") not in [x[0] for x in stubbed_rel]]
+            if not decided:
+                raise Inconclusive("function(s) %s could not be processed by the verifier (%s); nothing else failed" % ([x[0] for x in stubbed_rel], stubbed_rel[0][1][:200]))
         failed_labels = set(f["label"] for f in relevant_fail)
         # body obligations: one per verus-checked function (exec fn or lemma) in the units
         body_obl = [(u, fnname) for (u, fnname, ok, _, _) in fn_rows]
@@ -585,6 +625,8 @@ def check_property(pid, tier, seed):
         for r in results:
             exp = CONFIG["units"][r["unit"]].get("assumption_counts")
             got = cov["assumption_scan"][r["unit"]]
+            if r.get("stubbed"):
+                continue     # the stubs of this run are listed under functions_not_verified_in_this_run
             if exp is not None and got != exp:
                 raise Inconclusive("assumption scan of unit %s differs from the committed allow-list: %s vs %s" % (r["unit"], got, exp))
         # ---- frame / purity obligations decided by the borrow checker (C07)
